@@ -74,6 +74,10 @@ def decAttrs (xs : List SExp) : Option (List (String × AttrV)) :=
     | _ => none)
 
 def decSig : SExp → Option Sig
+  | .list [.atom "sig", .atom known, .atom variadic, .atom homog, .list tvs, .atom ver] => do
+    let ts ← atoms tvs
+    some { known := decBool known, variadic := decBool variadic, homog := decBool homog,
+           tvs := ts.map (fun t => if t = "_" then none else some t), ver := ver.toNat?.getD 0 }
   | .list [.atom "sig", .atom known, .atom variadic, .atom homog, .list tvs] => do
     let ts ← atoms tvs
     some { known := decBool known, variadic := decBool variadic, homog := decBool homog,
@@ -169,6 +173,11 @@ def decParam : SExp → Option Param
 
 /-- `(func NAME (params P*) (ret N|_) (body S*))` -/
 def decFunc : SExp → Option Func
+  | .list [.atom "func", .atom name, .list (.atom "params" :: ps), .list [.atom "ret", .atom r],
+           .list [.atom "opset", .atom ov], .list (.atom "body" :: ss)] => do
+    let ps' ← ps.mapM decParam
+    let ss' ← decStmts ss
+    some { name := name, params := ps', retCount := r.toNat?, body := ss', opsetVer := ov.toNat?.getD 0 }
   | .list [.atom "func", .atom name, .list (.atom "params" :: ps), .list [.atom "ret", .atom r],
            .list (.atom "body" :: ss)] => do
     let ps' ← ps.mapM decParam
